@@ -442,7 +442,15 @@ fn monitor(m: Arc<Mon>) {
         // a wait for the child on the runtime thread itself (instead of pool / pidfd readiness)
         let in_wait = p.state == 'S' && (p.nr == libc::SYS_waitid || p.nr == libc::SYS_wait4);
         let idle = (p.state == 'S' && idle_syscall(p.nr)) || in_write || in_wait;
-        let cblk = c.blocked_read_stdin() || c.blocked_write_out();
+        let mut cblk = c.blocked_read_stdin() || c.blocked_write_out();
+        // pipeline cases: the first process talks to the second one, not to the parent; nothing moves only
+        // if the other process is asleep in its stdio as well (or gone)
+        let pid2 = m.pid2.load(SeqCst);
+        if pid2 > 0 {
+            let c2 = procfs::process(pid2);
+            let b2 = c2.blocked_read_stdin() || c2.blocked_write_out();
+            cblk = (cblk && (b2 || c2.zombie_or_gone())) || (b2 && c.zombie_or_gone());
+        }
         if cblk && idle && prog == last { same += 1 } else { same = 0 }
         if c.zombie_or_gone() && idle && !in_write && prog == last { zsame += 1 } else { zsame = 0 }
         last = prog;
